@@ -12,7 +12,7 @@
    Statement only; proof in Proofs/SerializerParse.v.  The model is tied to the real class by the `ser` command
    (serops stream, mode S: parses from components with shorten_path in between). *)
 From Upa Require Import Base.Prelude Spec.Ip Spec.Url Impl.Repr Impl.Serializer.
-From Upa Require Import Proofs.ReprProofs Proofs.SerializerProofs Proofs.SerializerParse Proofs.SerializerEmit.
+From Upa Require Import Proofs.ReprProofs Proofs.SerializerProofs Proofs.SerializerParse Proofs.SerializerEmit Proofs.SerializerEmitNull.
 Local Open Scope N_scope.
 
 Theorem C01_ser_pathname_pieces : forall ps0 m f,
@@ -50,6 +50,14 @@ Theorem C01_emit_repr : forall sc us pw H po segs q fr,
   norm_tail (s_r (run false empty_sst (emit_ops sc us pw (host_serialize H) (host_type_num H) po segs q fr))) = repr_of u.
 Proof. exact emit_repr. Qed.
 
+(* the same for records with a NULL host and a non-empty list path (a:/p, a:/.//p): the first segment is written
+   straight after the scheme's ':', commit_path inserts the "/." prefix exactly when the path starts with "//" *)
+Theorem C01_emit_null_repr : forall sc seg0 segs q fr,
+  sc <> [] -> Forall no47 (seg0 :: segs) ->
+  let u := mkurl sc [] [] None None (PList (seg0 :: segs)) q fr in
+  norm_tail (s_r (run false empty_sst (emit_null_ops sc seg0 segs q fr))) = repr_of u.
+Proof. exact emit_null_repr. Qed.
+
 (* non-vacuity, evaluated: after "http://h" the path /a/../b/ ; file: the drive letter survives ".." *)
 Example C01_ser_path_example :
   let ps0 := [[104;116;116;112]; [58;47;47]; []; []; []; [104]; []; []; []; []; []] in
@@ -71,4 +79,5 @@ Print Assumptions C01_ser_pathname_pieces.
 Print Assumptions C01_ser_shorten.
 Print Assumptions C01_ser_authority.
 Print Assumptions C01_emit_repr.
+Print Assumptions C01_emit_null_repr.
 Print Assumptions C01_ser_path_example.
